@@ -233,7 +233,7 @@ def run_group(g: Group, prop: str, keep_trace=True) -> Result:
             if rc != 0:
                 raise Infra("goto-instrument --dfcc failed: " + (err or out)[-3000:])
             cur = b
-        cmd = ["cbmc", cur, "--json-ui", "--unwind", str(g.unwind), "--unwinding-assertions"] + g.checks
+        cmd = ["cbmc", cur, "--json-ui", "--drop-unused-functions", "--unwind", str(g.unwind), "--unwinding-assertions"] + g.checks
         if g.unwindset:
             cmd += ["--unwindset", ",".join(g.unwindset)]
         if g.object_bits:
